@@ -41,7 +41,7 @@ def fmtOptVec : Option (List Rat) → String
   | some v => fmtRatVec v
 
 def fmtDS (s : DS) : String :=
-  let smp := "[" ++ ",".intercalate (s.samples.map fun p => fmtRatVec p.1 ++ ":" ++ toString p.2) ++ "]"
+  let smp := "[" ++ ",".intercalate (s.samples.map fun p => fmtRatVec p.1 ++ ":" ++ fmtRat p.2) ++ "]"
   let rng := match s.range with
     | none => "none"
     | some (.pair lo hi) => s!"P {fmtRat lo} {fmtRat hi}"
@@ -78,10 +78,11 @@ def parseFac? (k v : String) : Option Fac :=
 
 def sortNat (l : List Nat) : List Nat := l.mergeSort (· ≤ ·)
 def sortInt (l : List Int) : List Int := l.mergeSort (· ≤ ·)
+def sortRat (l : List Rat) : List Rat := l.mergeSort (fun a b => decide (a ≤ b))
 
 def isPermOfRange (perm : List Nat) (n : Nat) : Bool := sortNat perm == List.range n
 
-def distinctLabels (s : DS) : List Int := sortInt s.labels.eraseDups
+def distinctLabels (s : DS) : List Rat := sortRat s.labels.eraseDups
 
 def fmtIds (from_ n : Nat) : String := "ids " ++ " ".intercalate ((List.range n).map fun k => toString (from_ + k))
 
@@ -93,7 +94,7 @@ def step (P : Pool) (line : String) : Pool × String :=
   | ["reset"] => (Pool.empty, "ok")
   | ["n"] => (P, toString P.objs.length)
   | ["new", rows, labs] =>
-    match parseRows? rows, parseVec? labs with
+    match parseRows? rows, parseRatVec? labs with
     | some rs, some ls =>
       if rs.length != ls.length then (P, "bad-op")
       else if rs.any (fun r => r.length != (rs.head?.map List.length).getD 0) then (P, "bad-op")
@@ -140,12 +141,12 @@ def step (P : Pool) (line : String) : Pool × String :=
     | _, _, _ => (P, "bad-op")
   | ["labs", i] =>
     match (parseNat? i).bind P.get? with
-    | some o => (P, fmtVec (distinctLabels o.ds))
+    | some o => (P, fmtRatVec (distinctLabels o.ds))
     | none => (P, "bad-op")
   | ["sl", i, order] =>
-    match (parseNat? i).bind P.get?, parseNat? i, parseVec? order with
+    match (parseNat? i).bind P.get?, parseNat? i, parseRatVec? order with
     | some o, some i, some order =>
-      if sortInt order == distinctLabels o.ds then
+      if sortRat order == distinctLabels o.ds then
         let n0 := P.objs.length
         match P.splitLabels i order with
         | (P', .ok k) => (P', fmtIds n0 k)
